@@ -392,6 +392,21 @@ Proof.
   unfold post. destruct (Qltb _ _); cbn [world emit]; exact H.
 Qed.
 
+(* the world after an event is the one its event function returns *)
+Lemma pend_step_world h (s0 : kst) : e_prog h = prog_fired ->
+  world (pend_step tb h s0) = fst (fired_prog cfg (e_time h) (e_elem h) (loci s0) (world s0)).
+Proof.
+  intros Hp. unfold pend_step, fire. cbn [world emit].
+  set (s1 := emit _ (set_clock _ _)).
+  assert (H : world (run_prog tb (e_proc h) (e_prog h) (e_time h) (e_elem h) s1)
+              = fst (fired_prog cfg (e_time h) (e_elem h) (loci s0) (world s0))).
+  { unfold run_prog. rewrite Hp, prog_of_fired. change (loci s1) with (loci s0). change (world s1) with (world s0).
+    destruct (fired_prog cfg (e_time h) (e_elem h) (loci s0) (world s0)) as [w' acts].
+    rewrite run_actions_world. reflexivity. }
+  destruct (e_rep h) as [ddt|]; [|exact H].
+  unfold post. destruct (Qltb _ _); cbn [world emit]; exact H.
+Qed.
+
 (* what one firing does *)
 Record fired_at (s0 s' : kst) (n : Z) (T : Q) : Prop := {
   fa_ftimes : pw_ftimes (world s') = T :: pw_ftimes (world s0);
